@@ -114,6 +114,7 @@ def units():
 
 
 META = dict(
+    technique="CBMC 6.11 function contracts (goto-instrument --dfcc, loop contracts) on C extracted mechanically from clang's AST of /repo; TBB parallel_for as an interface model",
     level="proof",
     level_text="Sequential core of the parallel loops, extracted from /repo for the serial-debug backend (whose loop text is also the OpenMP backend's loop) and for the TBB wrapper: with probe callbacks that count invocations for an arbitrary ghost index and assert every invocation lies in [0,n), serial_for / parallel_for / parallel_for_impl are proved by loop contracts (any iteration count) to invoke the callback exactly once for every index in [0,n), for nothing else, and not at all for n <= 0, for int, unsigned char and size_t indices; parallel_in_blocks_of<16> is proved, through the closure's own contract and a loop contract on its executor, to call the block callback with non-empty blocks of at most 16 indices that exactly partition [0,n); parallel_foreach's closure and count are extracted with it. The TBB wrapper is proved to hand exactly (0, n, fcn) to tbb::parallel_for.",
     level_note="NOT proved (contracts are sequential): the TBB and OpenMP runtimes themselves (assumed to run each index once and join), visibility of effects at the join under real threads, nesting, the internal enkiTS backend (parallel_for_internal, task splitting, lock-free pipe) -- all listed as assumptions. ",
